@@ -8,6 +8,7 @@ import ExecModel.Lts.SysExplore
 import ExecModel.Args
 import ExecModel.Res
 import ExecModel.Key
+import ExecModel.Props.C20
 import ExecModel.Lts.Cache
 import ExecModel.Proofs.SysLiveDefs
 /-!
@@ -479,9 +480,37 @@ def keyOps (op : String) (j : Json) : Except String (Option Json) := do
     pure (some (← go [] [] sessions))
   | _ => pure none
 
+/-! ### Plot -/
+
+def parsePArg (j : Json) : Except String Plot.PArg := do
+  match j.getObjVal? "f" with
+  | .ok v => pure (.fut (← v.getNat?))
+  | .error _ =>
+  match j.getObjVal? "fs" with
+  | .ok v => pure (.futs (← fromJson? (α := Array Nat) v).toList)
+  | .error _ => pure (.val (← getStr j "v"))
+
+def plotOps (op : String) (j : Json) : Except String (Option Json) := do
+  match op with
+  | "plot_graph" =>
+    let prog ← (← j.getObjValAs? (Array Json) "prog").toList.mapM (fun c => do
+      let args ← (← c.getObjValAs? (Array Json) "args").toList.mapM parsePArg
+      let kw ← (← c.getObjValAs? (Array Json) "kwargs").toList.mapM (fun e => match e with
+        | Json.arr #[Json.str k, v] => do pure (k, ← parsePArg v)
+        | _ => throw "kwargs: expected [key, arg] pairs")
+      pure ({ fn := ← getStr c "fn", args := args, kwargs := kw } : Plot.PCall))
+    let asFound := (j.getObjValAs? Bool "asFound").toOption.getD false
+    let g := if asFound then Plot.genGraph id (C20.tableAsFound prog) else Plot.graphOf prog
+    pure (some (Json.mkObj [
+      ("nodes", Json.arr (g.nodes.map (fun n => Json.mkObj [("id", toJson n.id), ("name", Json.str n.name),
+          ("shape", Json.str (if n.box then "box" else "circle"))])).toArray),
+      ("edges", Json.arr (g.edges.map (fun e => Json.mkObj [("start", toJson e.start), ("end", toJson e.stop),
+          ("label", Json.str e.label)])).toArray)]))
+  | _ => pure none
+
 end H
 
-def handlers : List (String → Json → Except String (Option Json)) := [H.cmdOps, H.presetOps, H.wireOps, H.sysOps, H.argsOps, H.resOps, H.keyOps]
+def handlers : List (String → Json → Except String (Option Json)) := [H.cmdOps, H.presetOps, H.wireOps, H.sysOps, H.argsOps, H.resOps, H.keyOps, H.plotOps]
 
 def handle (line : String) : Json :=
   match Json.parse line with
